@@ -58,7 +58,7 @@ func c09pki() *pki.PKI {
 func c09setup(tier string, seed uint64) int {
 	c09.seed, c09.tier = seed, tier
 	c09.scen = nil
-	reps := map[string]int{"quick": 1, "thorough": 5}[tier]
+	reps := map[string]int{"quick": 1, "thorough": 25}[tier]
 	for rep := 0; rep < reps; rep++ {
 		for _, cfg := range []string{"no-rule", "cn-rule", "cn-rule+password"} {
 			for _, cl := range c09clients {
